@@ -16,6 +16,23 @@ type FlowCase struct {
 	Templates []*Template
 	MinRec    int // smallest minimum record length among used templates
 	MaxPad    int
+	SetsPer   [][]Set    // the model of every datagram (for re-encoding with perturbations)
+	HdrRaw    [][]uint32 // the four free header values of every datagram
+}
+
+// EncodeFlow renders one datagram from its model.
+func EncodeFlow(proto string, h []uint32, sets []Set) ([]byte, []uint32) {
+	if proto == "ipfix" {
+		m := Msg{ExportTime: h[0], Seq: h[1], Domain: h[2], Sets: sets}
+		b := m.Encode()
+		return b, []uint32{10, uint32(len(b)), h[0], h[1], h[2]}
+	}
+	n := uint32(0)
+	for _, s := range sets {
+		n += uint32(len(s.Records) + len(s.Templates))
+	}
+	m := Nf9Msg{Count: n & 0xffff, SysUpTime: h[0], UnixSecs: h[1], Seq: h[2], SrcID: h[3], Sets: sets}
+	return m.Encode(), []uint32{9, n & 0xffff, h[0], h[1], h[2], h[3]}
 }
 
 // GenAddr produces an exporter address: 4-byte, IPv4-mapped 16-byte, or IPv6.
@@ -100,22 +117,12 @@ func GenFlowCase(g *mon.RNG, proto string, o GenOpts) *FlowCase {
 	hdr := func() []uint32 { return []uint32{uint32(g.U32()), uint32(g.U32()), uint32(g.U32()), uint32(g.U32())} }
 	emit := func(sets []Set, exp [][]ExpField) {
 		h := hdr()
-		var b []byte
-		if proto == "ipfix" {
-			m := Msg{ExportTime: h[0], Seq: h[1], Domain: h[2], Sets: sets}
-			b = m.Encode()
-			c.Hdr = append(c.Hdr, []uint32{10, uint32(len(b)), h[0], h[1], h[2]})
-		} else {
-			n := uint32(0)
-			for _, s := range sets {
-				n += uint32(len(s.Records) + len(s.Templates))
-			}
-			m := Nf9Msg{Count: n & 0xffff, SysUpTime: h[0], UnixSecs: h[1], Seq: h[2], SrcID: h[3], Sets: sets}
-			b = m.Encode()
-			c.Hdr = append(c.Hdr, []uint32{9, n & 0xffff, h[0], h[1], h[2], h[3]})
-		}
+		b, eh := EncodeFlow(proto, h, sets)
+		c.Hdr = append(c.Hdr, eh)
 		c.Dgrams = append(c.Dgrams, b)
 		c.Expect = append(c.Expect, exp)
+		c.SetsPer = append(c.SetsPer, sets)
+		c.HdrRaw = append(c.HdrRaw, h)
 	}
 	if sameMsg {
 		sets = tplSets(c.Templates)
